@@ -142,7 +142,14 @@ func (vs *ValidatorStore) ExecuteAllegationTracker(ctx *ValidatorContext, active
 	addrToDelete := make([]string, 0)
 	//processedValidators := make(map[string]bool)
 	ctx.EvidenceStore.CleanTracker()
+	// the requests are handled in a fixed order: the state writes below (frozen records, stake cuts, closed
+	// requests) must reach the state tree in the same order on every node, whatever Go's map iteration does
+	requestIDs := make([]string, 0, len(at.Requests))
 	for requestID := range at.Requests {
+		requestIDs = append(requestIDs, requestID)
+	}
+	sort.Strings(requestIDs)
+	for _, requestID := range requestIDs {
 		ar, err := ctx.EvidenceStore.GetAllegationRequest(requestID)
 		decisionMade := false
 		if err != nil {
